@@ -178,6 +178,32 @@ def install_hook(cls, hooks, ctx):
     cls.__validate__ = __validate__
 
 
+def immhook_cases():
+    """directed: a MUTABLE class with a __validate__ hook and optional fields declared immutable (write-once) that are
+    unset at the start - the first assignment after construction must run the hook like any other assignment"""
+    cases = []
+    fields = [["a", {"k": "integer"}], ["b", {"k": "string"}], ["c", {"k": "seqOf", "item": {"k": "integer"}}],
+              ["m", {"k": "mapOf", "key": {"k": "string"}, "val": {"k": "integer"}}], ["d", {"k": "integer"}]]
+    hooked = {"a": 99, "b": "bad", "c": {"l": [3, 4]}, "m": {"m": [["k", 7]]}, "d": 13}
+    fine = {"a": 2, "b": "ok", "c": {"l": [1]}, "m": {"m": [["z", 1]]}, "d": 5}
+    ci = 0
+    for imm in (["a"], ["b"], ["c"], ["a", "b", "c"], ["c", "m"], []):
+        cls = {"k": "struct", "name": f"IH{ci}", "required": ["d"], "addl": False, "fields": fields, "immFields": imm}
+        ci += 1
+        C.fix_accepts(cls)
+        for target in (imm or ["a", "c"]):
+            ops = [{"op": "setattr", "f": target, "v": hooked[target]},      # refused by the hook: stays unset
+                   {"op": "setattr", "f": "d", "v": fine["d"]},                # the instance is still usable
+                   {"op": "setattr", "f": target, "v": fine[target]},          # first accepted assignment
+                   {"op": "setattr", "f": target, "v": hooked[target]},        # now set (write-once) / refused by the hook
+                   {"op": "setattr", "f": "d", "v": hooked["d"]}]
+            kw = [["d", 1]]
+            case = {"suite": "mutate", "cls": cls, "kw": kw, "ops": ops, "hook": [[k, v] for k, v in hooked.items()]}
+            case["re"] = gen.re_table(cls, kw, ops)
+            cases.append(case)
+    return cases
+
+
 def gen_cases(rng, tier, n_classes, immutable=None):
     tbl = table()
     max_len = 6 if tier == "quick" else 20
